@@ -29,6 +29,26 @@ def _flush_loop(st: ast.AST, src: T.Callable[[ast.AST], bool]) -> T.Optional[str
     return None
 
 
+def _alias_flush(cfg: CFG, fn: ast.FunctionDef, reset: T.Any, alias: str, methods: T.Dict[str, ast.FunctionDef], primitive: str) -> T.Optional[str]:
+    """After `alias = buffer; buffer = []`: the node X of the loop `for w in alias: X.append_whitespaces(w)` that every path from the
+    reset to a return or to the next token-consuming call runs through (alias not rebound meanwhile); None if there is none."""
+    loops = [n for n in cfg.nodes if n.kind == 'iter' and _flush_loop(n.ast, lambda e: isinstance(e, ast.Name) and e.id == alias)]
+    rebinds = sum(1 for st in walk_no_nested(fn) for t in (st.targets if isinstance(st, ast.Assign) else [])
+                  for x in ast.walk(t) if isinstance(x, ast.Name) and x.id == alias)
+    if len(loops) < 1:
+        return None
+    cons = _consumers(methods, primitive)
+    ends = [cfg.exit_return] + [n for n in cfg.nodes if n.expr() is not None and any(
+        isinstance(c, ast.Call) and (attr_chain(c.func) or '').startswith('self.') and (attr_chain(c.func) or '')[5:] in cons for c in walk_no_nested(n.expr()))]
+    for lp in loops:
+        # the reset statement that belongs to this loop: the loop is the first thing after it
+        if lp.id not in [b for b, _ in cfg.succ[reset.id]]:
+            continue
+        if all(e.id == lp.id or cfg.must_pass(reset, e, [lp]) for e in ends if cfg.can_reach(reset, e)):
+            return _flush_loop(lp.ast, lambda e: True)
+    return None
+
+
 def _returned_by(methods: T.Dict[str, ast.FunctionDef], name: str, x: str, depth: int) -> str:
     """'' when the node `x` that received the pending whitespace in Parser.<name> is what the method returns, or - if `x` is a
     parameter - what every calling parser method passes and returns (followed through two levels of helpers)."""
@@ -180,7 +200,8 @@ def check_keepers(ctx: RuleCtx, model: NodeModel) -> None:
 
 def check_buffer(ctx: RuleCtx, model: NodeModel, primitive: str, wrapper: str) -> None:
     mod = model.mod
-    methods = mod.methods('Parser')
+    from .c02_model import split_parallel
+    methods = {n_: split_parallel(f_) for n_, f_ in mod.methods('Parser').items()}   # `p, self.buf = self.buf, []` read as two assignments
     resets = slices = 0
     own_flush: T.Dict[str, T.List[ast.AST]] = {}     # method -> reset statements that flush into its returned local
     flush_helpers: T.Set[str] = set()               # methods that flush into a parameter
@@ -232,6 +253,18 @@ def check_buffer(ctx: RuleCtx, model: NodeModel, primitive: str, wrapper: str) -
                     for pid, lab in cfg.pred[node.id]:
                         pn = cfg.nodes[pid]
                         x = None
+                        if pn.kind == 'stmt' and isinstance(pn.ast, ast.Assign) and isinstance(pn.ast.targets[0], ast.Name) and _is_buf(pn.ast.value):
+                            # ownership moved to a local first: `L = buffer; buffer = []`, then L is flushed on every way on
+                            x = _alias_flush(cfg, fn, node, pn.ast.targets[0].id, methods, primitive)
+                            if x is None:
+                                al = pn.ast.targets[0].id
+                                users = [n_ for n_ in cfg.nodes if n_.id != pn.id and n_.expr() is not None and any(
+                                    isinstance(y, ast.Name) and y.id == al and isinstance(y.ctx, ast.Load)
+                                    for r_ in ([n_.ast.iter] if n_.kind == 'iter' else [n_.expr()]) for y in walk_no_nested(r_))]
+                                if cfg.exit_return.id in cfg.reachable([node], avoid=users):
+                                    ok, why = False, f'moves the pending tokens to `{al}`, which is never read again on a path to a return'
+                                    continue
+                                raise Undecided(f'{qn}: the pending whitespace is moved to `{al}`; how it is flushed from there is not a recognised loop')
                         if pn.kind == 'join' and isinstance(pn.ast, ast.For) and \
                                 all(cfg.nodes[q].kind == 'iter' and cfg.nodes[q].ast is pn.ast and l2 == 'done' for q, l2 in cfg.pred[pn.id]):
                             x = _flush_loop(pn.ast, _is_buf)
